@@ -375,7 +375,7 @@ class RBFInterpolator(NNBase):
         """
         if len(prediction_points.shape) == 1:
             # Reshape vector to n x 1 array
-            prediction_points.shape = (1, prediction_points.shape[0])
+            prediction_points = prediction_points.reshape((1, prediction_points.shape[0]))
 
         normalized_pts = (prediction_points - self._tpm) / self._tpr
         nppts = normalized_pts.shape[0]
@@ -415,7 +415,7 @@ class RBFInterpolator(NNBase):
         """
         if len(prediction_points.shape) == 1:
             # Reshape vector to n x 1 array
-            prediction_points.shape = (1, prediction_points.shape[0])
+            prediction_points = prediction_points.reshape((1, prediction_points.shape[0]))
 
         normalized_pts = (prediction_points - self._tpm) / self._tpr
         # Setup prediction points and find their radial neighbors
